@@ -127,6 +127,7 @@ type Explorer struct {
 	crossFile   *os.File
 	seed int64
 	noFast bool
+	panicsCut bool
 	fastOne, fastTwo int64
 }
 
@@ -641,6 +642,16 @@ func (w *Worker) runPath(it WorkItem) (res PathResult) {
 			}
 		case targetPanic:
 			// uncaught panic of the interpreted program
+			if len(x.stack) > 0 && strings.Contains(x.stack[0], ".verif") && x.kind == "runtime" {
+				res.Outcome = "unsupported"
+				res.Label = "harness bug: runtime panic inside harness code: " + x.msg + " in " + x.stack[0]
+				break
+			}
+			if ex.panicsCut {
+				res.Outcome = "assume"
+				res.Label = "panic-in-code-under-test (C03/C04's concern)"
+				break
+			}
 			res.Outcome = "violation"
 			discr := panicDiscr(w, x)
 			res.Label = "panic"
@@ -694,14 +705,21 @@ func panicDiscr(w *Worker, x targetPanic) string {
 			what = "panic(" + w.renderStr(s, w.p.model) + ")"
 		}
 	}
-	where := ""
+	where, via := "", ""
+	var mf []string
 	for _, f := range x.stack {
-		if strings.Contains(f, "memefish") && !strings.Contains(f, "verif") {
-			where = f
-			break
+		if strings.Contains(f, "memefish") && !strings.Contains(f, ".verif") {
+			mf = append(mf, strings.ReplaceAll(f, "github.com/cloudspannerecosystem/memefish", "memefish"))
 		}
 	}
-	return what + " in " + where
+	if len(mf) > 0 {
+		where = mf[0]
+		via = mf[len(mf)-1]
+		if len(mf) > 1 {
+			via = mf[len(mf)-1] + " -> " + mf[len(mf)-2]
+		}
+	}
+	return what + " in " + where + " via " + via
 }
 
 func (w *Worker) digest(p *Path) string {
